@@ -91,7 +91,7 @@ func NewRejectPolicyField(name string) (RejectPolicyField, error) {
 // Policy returns the reject policy function.
 func (p RejectPolicyField) Policy() RejectPolicy {
 	if p.policy == nil {
-		return JustClose
+		return ForceReset
 	}
 	return p.policy
 }
@@ -99,7 +99,7 @@ func (p RejectPolicyField) Policy() RejectPolicy {
 // Name returns the name of the reject policy.
 func (p RejectPolicyField) Name() string {
 	if p.name == "" {
-		return "JustClose"
+		return "ForceReset"
 	}
 	return p.name
 }
